@@ -12,7 +12,7 @@ import json, os, re, shutil, subprocess, sys, glob
 ENV = dict(os.environ, GOFLAGS="-mod=mod", GOPROXY="off", GOSUMDB="off", GOTOOLCHAIN="local")
 ENV.pop("GOWORK", None)
 SEEDED = "/verif/seeded"
-WT = "/tmp/vw_seed"
+WT = os.environ.get("SEED_WT", "/tmp/vw_seed")
 
 
 def sh(cmd, cwd=None, timeout=1800):
